@@ -5,7 +5,6 @@ import (
 	"fmt"
 	"runtime"
 	"sort"
-	"strings"
 	"sync"
 	"sync/atomic"
 	"time"
@@ -94,17 +93,8 @@ func observe(s sets.Set[int], m mask) (sig, msg string) {
 			return "Range:stop", fmt.Sprintf("Range whose callback says stop at call %d was called %d times (members %v)", stop, n, want)
 		}
 	}
-	str := s.String()
-	if !strings.HasPrefix(str, "{") || !strings.HasSuffix(str, "}") {
-		return "String", fmt.Sprintf("String = %q", str)
-	}
-	f := strings.Fields(str[1 : len(str)-1])
-	sort.Strings(f)
-	var ws []string
-	for _, v := range want {
-		ws = append(ws, fmt.Sprint(v))
-	}
-	if fmt.Sprint(f) != fmt.Sprint(ws) {
+	// String: no format is promised; it must name every member exactly once and nothing else
+	if str := s.String(); !enum.SameMultiset(enum.IntTokens(str), want) {
 		return "String", fmt.Sprintf("String = %q, members %v", str, want)
 	}
 	return "", ""
